@@ -95,12 +95,12 @@ C09Trees(withE, odd) ==
        ELSE IF p = "e" THEN (IF e = 0 THEN Absent ELSE Dir(493))
        ELSE IF p = "e/a" THEN (IF e = 2 THEN C09File(p) ELSE Absent)
        ELSE Absent] :
-     tops \in SUBSET C09Top, hasD \in BOOLEAN, dsub \in SUBSET C09Sub, e \in (IF withE THEN (IF "e/a" \in Paths THEN 0..2 ELSE 0..1) ELSE {0}) }
+     tops \in SUBSET C09Top, hasD \in BOOLEAN, dsub \in SUBSET C09Sub, e \in (IF withE /\ "e" \in Paths THEN (IF "e/a" \in Paths THEN 0..2 ELSE 0..1) ELSE {0}) }
 C09Modes == IF "c" \in Paths THEN { <<TRUE, 0>>, <<TRUE, 1>>, <<TRUE, 2>>, <<FALSE, 0>> }      \* <<--delete, sender io-error word>>
             ELSE { <<TRUE, 0>>, <<TRUE, 2>>, <<FALSE, 0>> }
 (* the user's exclude rule for "a" (a name at two depths): the sender does not list it, and a deleting receiver *)
 (* must leave it - and go on deleting what sorts after it                                                     *)
-C09Prot == {{}, {"a", "d/a"} \cap Paths}
+C09Prot == {{}, {"a", "d/a"} \cap Paths, {"d/a"} \cap Paths}      \* (the last one is the PATH rule --exclude=d/a: it protects d/a only)
 C09ProtFor(src) == {x \in C09Prot : \A q \in x : ~Exists(src, q)}
 C09Scn ==
   UNION { { Scn(dst, ListOf(src), O(TRUE, TRUE, FALSE, TRUE, TRUE, FALSE, FALSE, FALSE, m[1]), m[2], pr) :
@@ -142,7 +142,8 @@ C13Scn == { E2E(C13Src, EmptyFs, OX(TRUE, FALSE, FALSE, TRUE, FALSE, FALSE, FALS
 C14Src == With(With(With(With(With(With(EmptyFs, "d", Dir(488)), "d/f", Reg(1, 20, 1000, 0, 416)), "dev", Spc("chr", 432)),
           "f", Reg(2, 30, 2000, 0, 384)), "k", Spc("fifo", 420)), "l", Lnk("d/f"))
 C14Dst == With(With(With(EmptyFs, "d", Dir(493)), "f", Reg(7, 30, 2000, 0, 420)), "z", Reg(8, 5, 500, 0, 420))
-C14Scn == { E2E(C14Src, C14Dst, OG(OX(TRUE, l, p, t, dv, sp, c, I, n, del), og, gg), rs) :
+C14Scn == { E2E(C14Src, C14Dst, OG(OX(r, l, p, t, dv, sp, c, I, n, del), og, gg), rs) :
+              r \in BOOLEAN,        \* without -r a directory argument is skipped: nothing is listed, nothing changes - but the session still runs
               l \in BOOLEAN, p \in BOOLEAN, t \in BOOLEAN, dv \in BOOLEAN, sp \in BOOLEAN, c \in BOOLEAN, I \in BOOLEAN, n \in BOOLEAN,
               del \in BOOLEAN, og \in BOOLEAN, gg \in BOOLEAN, rs \in {<<>>, <<[inc |-> FALSE, pat |-> "f", dir |-> FALSE]>>} }
 
